@@ -7,7 +7,7 @@
    fragment of the property; exactly_balanced_is_stable). *)
 From LedgerV Require Import Base.Prelude Base.Round Model.Amount Model.Xact Model.Journal
   Proofs.AmountProofs Proofs.XactProofs Proofs.JournalProofs Proofs.CompareProofs Proofs.GainLossProofs
-  Model.AmountText Proofs.AmountTextProofs Model.Subtotal Proofs.SubtotalProofs Gen.SourceGuards.
+  Model.AmountText Proofs.AmountTextProofs Model.Subtotal Proofs.SubtotalProofs Model.Glob Proofs.GlobProofs Gen.GlobTable Gen.SourceGuards.
 From Coq Require Import Permutation.
 Local Open Scope Q_scope.
 
@@ -152,6 +152,42 @@ Example ex_subtotal_dates :
    date_range [20210310; 20210105; 20210215] = Some (20210105, 20210310) /\
    date_range [] = None)%Z.
 Proof. exact range_examples. Qed.
+
+(* files joined by `include`: the file-name part of the path is a glob (Model/Glob.v: `?` one byte, `*` any run, the
+   empty one too, anything else itself).  A name without glob characters reads the file of exactly that name - no sibling
+   whose name merely matches it as a regular expression (F161: `include f.dat` also read `fxdat`, `a+b.dat` could not be
+   included; repaired in /repo); `PRE*POST` reads PRE ++ anything ++ POST, the bare PRE ++ POST included.  The
+   translation mask_t::assign_glob performs is re-read on every run (Gen/GlobTable.v): `?` -> `.`, `*` -> `.*`, and the
+   bytes . + ( ) | { } written with a backslash; the correspondence lays journals out over files named to match and to
+   miss such patterns and compares what ledger reads with what the model says is read *)
+Theorem plain_include_reads_exactly_that_file : forall pat name,
+  no_glob_chars pat = true -> (include_matches pat name = true <-> name = pat).
+Proof. exact plain_include_reads_that_file_only. Qed.
+Print Assumptions plain_include_reads_exactly_that_file.
+
+Theorem star_in_an_include_matches_any_run : forall a b m,
+  gmatch (lits a ++ GStar :: lits b) (a ++ m ++ b) = true.
+Proof. exact star_pattern_matches. Qed.
+Print Assumptions star_in_an_include_matches_any_run.
+
+Theorem star_in_an_include_matches_the_bare_name : forall a b,
+  gmatch (lits a ++ GStar :: lits b) (a ++ b) = true.
+Proof. exact star_pattern_matches_the_bare_name. Qed.
+Print Assumptions star_in_an_include_matches_the_bare_name.
+
+Theorem glob_translation_is_faithful :
+  (src_glob_any = [46] /\ src_glob_star = [46; 42] /\
+   forallb (fun c => existsb (Z.eqb c) src_glob_escaped) [46; 43; 40; 41; 124; 123; 125] = true)%Z.
+Proof. vm_compute. repeat split. Qed.
+Print Assumptions glob_translation_is_faithful.
+
+Example ex_include_globs :
+  (include_matches [116;120;42;46;100;97;116] [116;120;46;100;97;116] = true /\
+   include_matches [116;120;42;46;100;97;116] [116;120;49;46;100;97;116] = true /\
+   include_matches [116;120;42;46;100;97;116] [116;121;49;46;100;97;116] = false /\
+   include_matches [102;46;100;97;116] [102;120;100;97;116] = false /\
+   include_matches [112;63;46;100;97;116] [112;46;100;97;116] = false)%Z.
+Proof. exact glob_examples. Qed.
 
 (* the tie to the source by translation: the lines of /repo/src this model transcribes (harness/translators/src_guards.py
    lists them, with the function each is looked for in) are still there, in the same order, in the source as it is NOW -
